@@ -79,7 +79,8 @@ fn line(rng: &mut Rng, img: &RefImage) -> (String, bool) {
         }
         1 => format!("{} {}", name, a),
         2 => format!("{} {} {}", name, a, b),
-        _ => format!("echo {}", rng.s(&["hello", "two words", "x3000 r1", "step", "-", "caf\u{e9}"])),
+        // (free text: quotes, backslashes and brackets in it are characters like any other)
+        _ => format!("echo {}", rng.s(&["hello", "two words", "x3000 r1", "step", "-", "caf\u{e9}", "\"", "'", "\"\"", "''", "\"quoted\"", "' a '", "\"open", "it's", "a \" b", "\\", "\\n", "[", "]", "[x]", "{}", "%s %d", "$HOME", "`", "\u{e9}\"", "\"\u{e9}"])),
     };
     let mut malformed = text.contains("r8") || text.contains("xyz") || text.contains("^^") || takes == 2;
     let mut text = text.trim().to_string();
